@@ -3,11 +3,13 @@
 // traversal rules (no callback twice, everything that stayed is visited, list order), deep probe after join.
 #include <eventpp/callbacklist.h>
 #include <eventpp/eventdispatcher.h>
+#include <eventpp/hetercallbacklist.h>
 
 #include "common/harness.h"
 #include "common/ledger.h"
 #include "common/sched.h"
 
+#include <algorithm>
 #include <map>
 #include <memory>
 #include <set>
@@ -70,6 +72,7 @@ struct ISubject
 	virtual void invoke(int key) = 0;
 	virtual size_t handleCount() = 0;
 	virtual bool assigned(int h) = 0; // the add that creates handle h has returned and stored it
+	virtual bool hasOwns() const { return true; } // HeterCallbackList has no ownsHandle
 };
 
 template <typename Threading_>
@@ -97,6 +100,38 @@ struct ListSubject : ISubject
 	bool empty(int) override { return list.empty(); }
 	void forEach(int, std::vector<int> & nodes) override {
 		list.forEach([&](const typename List::Callback & c) { const Cb * p = c.template target<Cb>(); nodes.push_back(p ? p->id - kCbBase : -1); schedPoint("enumerate.body"); });
+	}
+	void invoke(int) override { list(1); }
+	size_t handleCount() override { std::lock_guard<std::mutex> g(hm); return handles.size(); }
+};
+
+// HeterCallbackList: the per-prototype list is created on first use (double-checked locking on the policy's mutex)
+template <typename Threading_>
+struct HeterListSubject : ISubject
+{
+	struct Pol { using Threading = Threading_; };
+	using List = eventpp::HeterCallbackList<eventpp::HeterTuple<void (int), void (const std::string &)>, Pol>;
+	List list;
+	std::vector<typename List::Handle> handles;
+	std::vector<char> done;
+	std::mutex hm;
+	typename List::Handle H(int h) { std::lock_guard<std::mutex> g(hm); return h >= 0 && (size_t)h < handles.size() ? handles[(size_t)h] : typename List::Handle(); }
+	int keys() const override { return 1; }
+	bool hasOwns() const override { return false; }
+	void add(int, int how, int before, int node) override {
+		typename List::Handle b = H(before);
+		typename List::Handle h = how == 0 ? list.append(Cb(node)) : how == 1 ? list.prepend(Cb(node)) : list.insert(Cb(node), b);
+		std::lock_guard<std::mutex> g(hm);
+		if(handles.size() <= (size_t)node) { handles.resize((size_t)node + 1); done.resize((size_t)node + 1, 0); }
+		handles[(size_t)node] = h;
+		done[(size_t)node] = 1;
+	}
+	bool assigned(int h) override { std::lock_guard<std::mutex> g(hm); return h >= 0 && (size_t)h < done.size() && done[(size_t)h]; }
+	bool remove(int, int h) override { return list.remove(H(h)); }
+	bool owns(int, int h) override { std::vector<int> n; forEach(0, n); return std::find(n.begin(), n.end(), h) != n.end(); } // only used single-threaded (final probe)
+	bool empty(int) override { return list.empty(); }
+	void forEach(int, std::vector<int> & nodes) override {
+		list.template forEach<void (int)>([&](const std::function<void (int)> & c) { const Cb * p = c.template target<Cb>(); nodes.push_back(p ? p->id - kCbBase : -1); schedPoint("enumerate.body"); });
 	}
 	void invoke(int) override { list(1); }
 	size_t handleCount() override { std::lock_guard<std::mutex> g(hm); return handles.size(); }
@@ -206,6 +241,7 @@ struct Run
 			break;
 		}
 		case L_REMOVE: case L_OWNS: {
+			if(op.kind == L_OWNS && ! subj->hasOwns()) break;
 			r.node = pickHandle(op.a);
 			if(r.node < 0) break;
 			r.key = nodeKey[(size_t)r.node];
@@ -384,7 +420,7 @@ struct Run
 	static int dispCsGroup(const char * tag) { return strncmp(tag, "cs.disp.", 8) == 0 ? 2 : 0; }
 
 	void run() {
-		const int cfg = prog.params.size() > 0 ? ((prog.params[0] % 4) + 4) % 4 : 0;
+		const int cfg = prog.params.size() > 0 ? ((prog.params[0] % 5) + 5) % 5 : 0;
 		const int strategy = prog.params.size() > 1 ? ((prog.params[1] % 3) + 3) % 3 : 0;
 		// params[3] == 77: scripted schedule (bounded-exhaustive exploration, see h_cq.cpp); params[2] & 1: forced switches
 		// go to the highest runnable thread instead of the lowest
@@ -399,12 +435,14 @@ struct Run
 			for(size_t i = 0; i + 3 <= prog.sched.size(); i += 3) sched->script.push_back(std::make_pair((long)prog.sched[i] * 256 + prog.sched[i + 1], (int)prog.sched[i + 2]));
 		}
 		// one list (cfg 0, 1) or one dispatcher whose lists are many (cfg 2, 3): only sections over a single object count
-		sched->csGroupOf = cfg < 2 ? &listCsGroup : &dispCsGroup;
+		sched->csGroupOf = cfg < 2 ? &listCsGroup : cfg < 4 ? &dispCsGroup : nullptr;
+		if(cfg == 4) sched->noPreemptPrefix = "cs.cbl."; // the per-prototype lists of HeterCallbackList use std::mutex whatever the policy says
 		switch(cfg) {
 		case 0: subj.reset(new ListSubject<SchedThreading>()); break;
 		case 1: subj.reset(new ListSubject<SchedSpinThreading>()); break;
 		case 2: subj.reset(new DispSubject<PolMap>()); break;
-		default: subj.reset(new DispSubject<PolHash>()); break;
+		case 3: subj.reset(new DispSubject<PolHash>()); break;
+		default: subj.reset(new HeterListSubject<SchedThreading>()); break;
 		}
 		std::vector<const std::vector<Op> *> scripts;
 		std::vector<std::vector<int> > prefix((size_t)subj->keys());
@@ -447,7 +485,7 @@ void onVisit(int node) { if(g_run) g_run->visit(node); }
 Grammar makeGrammar()
 {
 	Grammar g;
-	g.params = { ArgSpec(0, 3), ArgSpec(0, 2) };
+	g.params = { ArgSpec(0, 4), ArgSpec(0, 2) };
 	g.maxSched = 96;
 	g.maxDepth = 2;
 	g.maxTotalOps = 30;
@@ -558,14 +596,14 @@ std::string enumerate(const std::string &, const std::function<bool (const Progr
 			pre.pop_back();
 		}
 	};
-	for(const Program & tpl : templates) for(int cfg = 0; cfg < 4 && ! stop; ++cfg) for(int order = 0; order < 2 && ! stop; ++order) {
+	for(const Program & tpl : templates) for(int cfg = 0; cfg < 5 && ! stop; ++cfg) for(int order = 0; order < 2 && ! stop; ++order) {
 		if(index++ % shards != shard) continue;
 		Program p = tpl;
 		p.params = { cfg, 0, order, 77 };
 		std::vector<std::pair<long, int> > pre;
 		dfs(p, pre, 0);
 	}
-	return std::to_string(templates.size()) + " thread programs over a list of 0, 1 or 2 callbacks x 4 subjects (list with mutex / SpinLock, dispatcher with map / unordered_map) x 2 orders for forced switches, every schedule with <= "
+	return std::to_string(templates.size()) + " thread programs over a list of 0, 1 or 2 callbacks x 5 subjects (list with mutex / SpinLock, dispatcher with map / unordered_map, HeterCallbackList) x 2 orders for forced switches, every schedule with <= "
 		+ std::to_string(K) + " preemption(s) (shard " + std::to_string(shard) + "/" + std::to_string(shards) + ": " + std::to_string(runs) + " runs, " + std::to_string(pruned) + " ineffective preemptions pruned)";
 }
 } // namespace
